@@ -1334,6 +1334,11 @@ class KafkaClient(object):
         # If any of the payloads failed, fail
         responses = [acc[k] for k in original_keys if k in acc] if acc else []
         if failed_payloads:
+            if all(f.check(t_CancelledError) for _, f in failed_payloads):
+                # Bare cancellations can only come from our caller cancelling this operation
+                # (a timeout substitutes RequestTimedOutError), so report it as cancelled:
+                # Producer and Consumer recognise their own cancellation by that type.
+                failed_payloads[0][1].raiseException()
             self.reset_all_metadata()
             raise FailedPayloadsError(responses, failed_payloads)
 
